@@ -179,7 +179,7 @@ def run(eng, rep) -> None:
             cand = None
             if isinstance(n, ast.Dict):
                 cand = n
-            if cand is not None and cand.keys and all(isinstance(k, ast.Constant) for k in cand.keys) and all(isinstance(v, ast.Constant) and isinstance(v.value, str) and re.fullmatch(r"u?int\d+_t|float|double|bool", v.value) for v in cand.values):
+            if cand is not None and len(cand.keys) >= 4 and all(isinstance(k, ast.Constant) and isinstance(k.value, str) and re.fullmatch(r"[uif]\d+", k.value) for k in cand.keys) and all(isinstance(v, ast.Constant) and isinstance(v.value, str) for v in cand.values):
                 type_map = type_map or cand
             if isinstance(n, ast.Subscript) and isinstance(n.ctx, ast.Load) and isinstance(n.value, (ast.Name, ast.Dict)):
                 vals = [n.value] if isinstance(n.value, ast.Dict) else [v for k, v, st in Defs(f.node).values(n.value.id) if isinstance(v, ast.Dict)]
